@@ -314,7 +314,9 @@ def bisim(doc, src):
                 for f in st["fields"]:
                     for mt in re.findall(r"[A-Za-z_][A-Za-z0-9_]*", f["type"]):
                         referenced.add(mt)
-    # ---- nothing extra
+    # ---- items of the file that correspond to nothing in the metamodel (informational)
+    unmatched = []
+    stats["unmatched_items"] = unmatched
     known = set(mm.structures) | set(mm.enums) | set(mm.aliases) | SUPPORT | {n for n, _ in mp.literal_structs}
     for m in mm.requests:
         known |= set(mm.request_class_names(m)[:2])
@@ -328,7 +330,9 @@ def bisim(doc, src):
             if kind == "structs" and n in referenced:
                 # invented literal struct reached only through alias variants etc.: must at least be referenced
                 continue
-            bad("extra-item", n, "lib.rs defines %s %s which corresponds to nothing in the metamodel and is not a support item" % (kind[:-1], n))
+            # the statement is about what the metamodel requires of the crate, not about helper items the
+            # crate may add: unmatched items are reported in the evidence, they are no violation
+            unmatched.append("%s %s" % (kind[:-1], n))
     # gated items must be proposed (only those)
     return vs, stats
 
@@ -410,7 +414,10 @@ def run(ctx):
                 continue
             res.add(v)
         for k, n in stats.items():
-            total[k] = total.get(k, 0) + n
+            if isinstance(n, list):
+                total[k] = sorted(set(total.get(k, [])) | set(n))
+            else:
+                total[k] = total.get(k, 0) + n
         total[label + "_items"] = stats["items_in_file"]
     n = total.get("facets", 0)
     res.coverage = {
